@@ -23,7 +23,7 @@ m = {
     "version": 1,
     "setup_cmd": "./engine/setup.sh",
     "hooks": {"guard": "SECP256K1_ZKP_VERIF",
-              "enable": "goto-cc -DSECP256K1_ZKP_VERIF (verifier front end only; no binary is ever linked with the guard on; native replay drivers build with it off)",
+              "enable": "goto-cc -DSECP256K1_ZKP_VERIF (verifier front end only). /repo currently contains NO code behind the guard: function contracts are attached by redeclaration in /verif and loop contracts are passed to goto-instrument with --loop-contracts-file; the two hook commits add and remove again a no-op macro, so src/ is byte-identical to the pinned tree except for the fix: commit",
               "baseline_off_cmd": "cmake --build /repo/_build && ctest --test-dir /repo/_build -j8 --timeout 900",
               "source_commits": hook_commits, "add_only": True},
     "engines": [{"name": "cbmc-contracts", "path": "/verif/check", "serves_properties": sorted(claims.CLAIMS),
